@@ -9,6 +9,12 @@ type tagBlockNode struct {
 	name string
 }
 
+// maxSuperDepth bounds how many block.Super calls may be executing at once. They add up
+// over nested blocks (every level of an inheritance chain for every block around), so the
+// bound is wider than the one on nested templates; it is there for definitions that
+// render each other through block.Super in a cycle.
+const maxSuperDepth = 1000
+
 func (node *tagBlockNode) getBlockWrappers(tpl *Template) []*NodeWrapper {
 	nodeWrappers := make([]*NodeWrapper, 0)
 	var t *NodeWrapper
@@ -30,8 +36,8 @@ func (node *tagBlockNode) Execute(ctx *ExecutionContext, writer TemplateWriter) 
 		panic("internal error: tpl == nil")
 	}
 
-	if ctx.depth > maxTemplateDepth {
-		return ctx.Error(fmt.Sprintf("maximum template nesting depth reached (max is %d): block definitions rendering each other through block.Super in a cycle?", maxTemplateDepth), nil)
+	if ctx.superDepth > maxSuperDepth {
+		return ctx.Error(fmt.Sprintf("maximum nesting of block.Super reached (max is %d): block definitions rendering each other through block.Super in a cycle?", maxSuperDepth), nil)
 	}
 
 	// Determine the block to execute
@@ -81,9 +87,9 @@ func (t tagBlockInformation) Super(ctx *ExecutionContext) (*Value, error) {
 
 	// Definitions can refer to each other in a cycle (a overrides b's outer block and
 	// uses Super, b …): every step into a less-derived definition counts as a level of
-	// nesting, which the block tag bounds like the nesting of templates
+	// nesting of its own kind, which the block tag bounds (maxSuperDepth)
 	superCtx := NewChildExecutionContext(ctx)
-	superCtx.depth = ctx.depth + 1
+	superCtx.superDepth = ctx.superDepth + 1
 	superCtx.Private["block"] = tagBlockInformation{
 		wrappers: t.wrappers[0 : lenWrappers-1],
 	}
